@@ -55,8 +55,14 @@ func checkLiterals(t *fw.T, lits []litCase, label string) {
 		}, func() {
 			po = parse(src, Mode{})
 			if po.Err == nil {
-				c = CfgCompact.Compile(po.Prog).Code
-				p = CfgPretty.Compile(po.Prog).Code
+				if (t.Index/16)%2 == 1 {
+					// long-lived Compiler values: one literal after the other through the same compilers
+					c = CfgCompact.CompileReused(po.Prog).Code
+					p = CfgPretty.CompileReused(po.Prog).Code
+				} else {
+					c = CfgCompact.Compile(po.Prog).Code
+					p = CfgPretty.Compile(po.Prog).Code
+				}
 			}
 		})
 		if !ok {
